@@ -171,7 +171,8 @@ def incoherent_dedispersion(z, DM, /, *, ref_freq=None):
 
     crop_before = -min(0, delays[0], delays[-1])
     delays += crop_before
-    N = len(z) - max(delays)
+    # (nothing is left when the delays differ by more than the length)
+    N = max(0, len(z) - max(delays))
 
     x = np.stack([z.data[j : j + N, i] for i, j in enumerate(delays)], axis=1)
 
